@@ -277,6 +277,21 @@ def run(ctx):
                     emit({'spec': {'gen': 'raw', 'params': {'kind': 'text-late-nonascii', 'total': L, 'pos': pos, 'byte': byte}},
                           'allowed': rng2.choice([None, None, ['vmdk', 'raw'], ['vmdk']]), 'cuts': sl.fixed(L, size)},
                          'text-late-nonascii')
+    # text VMDK descriptors whose createType line comes late: restricted allowed sets decide early, small reads, the
+    # decision is sampled after every read (no-revision on the text-descriptor path)
+    rng4 = ctx.rng('textdesc')
+    for i in range(ctx.pick(300, 6000)):
+        nfill = rng4.choice([0, 1, 2, 4, 8, 20])
+        extra = [['# ' + 'x' * rng4.randrange(5, 90), True] for _ in range(nfill)]
+        head = ['# Disk DescriptorFile'] + ['# filler %d %s' % (j, 'y' * rng4.randrange(0, 70)) for j in range(rng4.choice([0, 1, 3, 9, 25]))]
+        spec = {'gen': 'vmdk_text', 'params': {'ctype': rng4.choice(['monolithicSparse', 'streamOptimized', 'vmfs']),
+                                               'head': head, 'extra': extra, 'total': rng4.choice([None, None, 3000, 9000])}}
+        data, _t = ig.build(spec)
+        allowed = rng4.choice([['vmdk', 'raw'], ['vmdk', 'raw'], ['vmdk'], ['vmdk', 'raw', 'qcow2', 'gpt'], ['vmdk', 'luks', 'raw'], None])
+        size = rng4.choice([1, 7, 17, 64, 100, 192, 512, 600, 4096, 1 << 22])
+        if len(data) // size > 20000:
+            size = 17
+        emit({'spec': spec, 'allowed': allowed, 'cuts': sl.fixed(len(data), size)}, 'text-descriptor')
     # detect_file_format on disk
     rng3 = ctx.rng('detect')
     for i in range(ctx.pick(400, 8000)):
